@@ -3,7 +3,7 @@
 cd "$(dirname "$0")/.."
 for d in seeded/C*; do
   id=$(basename $d | cut -c1-3)
-  if ! git -C /repo apply --check $d/patch.diff 2>/dev/null; then echo "$d: patch no longer applies (repo changed since)"; continue; fi
+  if ! git -C /repo apply --check $(pwd)/$d/patch.diff 2>/dev/null; then echo "$d: patch no longer applies (repo changed since)"; continue; fi
   timeout 1500 python3 tools/seedtest.py $d $id 2>&1 | grep "check " | cut -c1-200 | sed "s|^|$d: |"
 done
 git -C /repo status --short | wc -l
